@@ -23,7 +23,7 @@ REQUIRED = {
  'C11': ['^wcall/hit/stale[a-z]*/0exec', '^wcall/hit/stale[a-z]*/1exec', '^wcall/miss'],
  'C12': ['^group/tag/[1-9]', '^group/cache/1', '^group/dep/1', '^group/event/[1-9]', '^group/tag/0'],
  'C13': ['^with/1targets', '^with/0targets', '^all_with/', '^group/.*/0match'],
- 'C14': ['^wcall/hit', '^wcall/miss'],
+ 'C14': ['^wcall/hit', '^wcall/miss', '^partition/shared/2', '^partition/isolated/2'],
  'C15': ['^get/hit', '^get/expired', '^get/absent', '^stats/registry', '^quiescent/'],
  'C16': ['^insert/new/evict', '^insert_mem/', '^get/expired', '^wcall/', '^with/'],
  'C17': ['^quiescent/'],
